@@ -29,10 +29,35 @@ fn check_edges<T: Ord + Clone + Debug>(tag: &str, input: Vec<T>, probes: &[T], l
     want.sort();
     want.dedup();
     let mut obs: Vec<String> = Vec::new();
-    for via_array in [false, true] {
-        let edges: Edges<T> = if via_array { Edges::from(Array1::from(input.clone())) } else { Edges::from(input.clone()) };
+    for via in 0..5u8 {
+        let via_array = via > 0;
+        // From<Array1>: a fresh standard-layout array, and owned arrays that were narrowed, stepped
+        // or reversed in place (their backing buffer holds more / differently ordered elements)
+        let edges: Edges<T> = match via {
+            0 => Edges::from(input.clone()),
+            1 => Edges::from(Array1::from(input.clone())),
+            2 => {
+                let mut buf = vec![probes[0].clone(), probes[probes.len() - 1].clone()];
+                buf.extend(input.iter().cloned());
+                buf.push(probes[1 % probes.len()].clone());
+                Edges::from(Array1::from(buf).slice_move(ndarray::s![2..2 + input.len()]))
+            }
+            3 => {
+                let mut buf = Vec::new();
+                for x in &input {
+                    buf.push(x.clone());
+                    buf.push(probes[0].clone());
+                }
+                Edges::from(Array1::from(buf).slice_move(ndarray::s![..;2]))
+            }
+            _ => {
+                let mut rev = input.clone();
+                rev.reverse();
+                Edges::from(Array1::from(rev).slice_move(ndarray::s![..;-1]))
+            }
+        };
         let got: Vec<T> = edges.iter().cloned().collect();
-        lx.check(got == want, "C13/edges-not-sorted-distinct", || format!("{}: Edges::from({:?}) (via_array={}) holds {:?}, expected {:?}", tag, input, via_array, got, want));
+        lx.check(got == want, "C13/edges-not-sorted-distinct", || format!("{}: Edges::from({:?}) (construction variant {}: 0 Vec, 1 fresh Array1, 2 narrowed, 3 stepped, 4 reversed owned Array1; via_array={}) holds {:?}, expected {:?}", tag, input, via, via_array, got, want));
         lx.check(edges.len() == want.len() && edges.is_empty() == want.is_empty(), "C13/edges-len", || format!("{}: Edges::from({:?}).len() = {}, expected {}", tag, input, edges.len(), want.len()));
         lx.check(edges.as_array_view().to_vec() == want, "C13/edges-array-view", || format!("{}: as_array_view of {:?}", tag, input));
         for i in 0..edges.len().min(want.len()) {
@@ -141,14 +166,18 @@ fn main() {
                 }
                 let probes = [-1, 0, 2, 4, 6, 8, 9];
                 let mut obs = Vec::new();
-                for mut x in 0..probes.len().pow(d as u32) {
+                for x0 in 0..probes.len().pow(d as u32) * 3 {
+                    let mut x = x0 / 3;
                     let mut pt = vec![0i32; d];
                     for k in (0..d).rev() {
                         pt[k] = probes[x % probes.len()];
                         x /= probes.len();
                     }
                     let want: Option<Vec<usize>> = pt.iter().zip(&sets).map(|(v, e)| ref_indices(e, v).map(|t| t.0)).collect();
-                    let got = guarded(|| grid.index_of(&Array1::from(pt.clone())));
+                    // the point is presented as an owned array and as reversed / stepped views
+                    let variant = x0 % 3;
+                    let host = nsmc::layouts::Host1::new(&pt, [1isize, -1, 2][variant], 1, 77);
+                    let got = guarded(|| if variant == 0 { grid.index_of(&Array1::from(pt.clone())) } else { grid.index_of(&host.view()) });
                     match got {
                         Err(m) => lx.fail("C13/grid-index-of-panic", || format!("grid over {:?}: index_of({:?}) panicked: {}", sets, pt, m)),
                         Ok(got) => {
